@@ -4,6 +4,7 @@ package main
 // scripted peer, k concurrent calls, the history the script forces is replayed by Model/Waiters.v.
 
 import (
+	"encoding/json"
 	"fmt"
 	"strings"
 	"time"
@@ -304,12 +305,14 @@ func runC05(r *Run) {
 	}
 	// all status codes 0..255, answered in order, both transports
 	for _, trans := range []string{"tcp", "ws"} {
-		r.c05Statuses(trans)
+		r.c05Statuses(trans, false)
+		r.c05Statuses(trans, true) // connections that negotiated the JSON codec decode the error body as JSON
+		r.c05DupBurst(trans)
 	}
 }
 
-func (r *Run) c05Statuses(trans string) {
-	s, err := openSession(trans, 1)
+func (r *Run) c05Statuses(trans string, jsonCodec bool) {
+	s, err := openSessionPrep(trans, 1, func(tc *testClient) { tc.jsonCodec = jsonCodec })
 	if err != nil {
 		r.violate(Violation{What: "scenario setup failed: " + err.Error(), Case: trans})
 		return
@@ -335,6 +338,9 @@ func (r *Run) c05Statuses(trans string) {
 		for i := 7; i >= 0; i-- { // answer in reverse order
 			st := uint8(base + i)
 			body := errBody(uint64(1000+int(st)), fmt.Sprintf("m%d", st))
+			if jsonCodec {
+				body = []byte(fmt.Sprintf(`{"code":%d,"msg":"m%d"}`, 1000+int(st), st))
+			}
 			if st%3 == 0 {
 				body = []byte{0xff, 0xfe, byte(st)}
 			}
@@ -342,7 +348,11 @@ func (r *Run) c05Statuses(trans string) {
 			s.lk.sendFrame(f.encode())
 			events = append(events, fmt.Sprintf("D.%d.2.30.%d.%d.%s", i, i+1, st, hx(body)), fmt.Sprintf("F%d", i))
 			if st != 0 {
-				entries = append(entries, perrEntry(body))
+				if jsonCodec {
+					entries = append(entries, jsonPerrEntry(body))
+				} else {
+					entries = append(entries, perrEntry(body))
+				}
 			}
 		}
 		for i := 0; i < 8; i++ {
@@ -369,7 +379,62 @@ func (r *Run) c05Statuses(trans string) {
 		}
 		r.emit("wt.run "+strings.Join(events, " ")+" "+strings.Join(entries, " "), strings.Join(results, " ; ")+" | nr=0 dup=0 unsup=0", true)
 	}
-	r.count("c05.status-sweep." + trans)
+	if jsonCodec {
+		r.count("c05.status-sweep-json." + trans)
+	} else {
+		r.count("c05.status-sweep." + trans)
+	}
+}
+
+// jsonPerrEntry: what the error body means on a connection that negotiated the JSON codec.
+func jsonPerrEntry(body []byte) string {
+	var e control.Error
+	if err := json.Unmarshal(body, &e); err != nil {
+		return "perr:" + hx(body) + "=-"
+	}
+	return fmt.Sprintf("perr:%s=%d.%s", hx(body), e.GetCode(), hx([]byte(e.GetMsg())))
+}
+
+// c05DupBurst: the peer answers a call twice in one burst; the NEXT call must still get its own answer.
+func (r *Run) c05DupBurst(trans string) {
+	s, err := openSession(trans, 1)
+	if err != nil {
+		return
+	}
+	defer s.close()
+	for round := 0; round < 12; round++ {
+		chA := s.tc.doAsync(20, nil, time.Second)
+		qa := s.lk.nextRequest(2 * time.Second)
+		if qa == nil {
+			return
+		}
+		fa := respFrame(1, 20, qa.Rid, 0, []byte(fmt.Sprintf("dup-%d", round)))
+		if tl, ok := s.lk.(tcpLink); ok {
+			tl.pc.send(append(append([]byte{}, fa...), fa...)) // both copies in one segment
+		} else {
+			s.lk.sendFrame(fa)
+			s.lk.sendFrame(fa)
+		}
+		ra, okA := awaitDo(chA, 2*time.Second)
+		if !okA || ra.pkt == nil || string(ra.pkt.Body) != fmt.Sprintf("dup-%d", round) {
+			r.violate(Violation{What: "a call answered twice did not return its answer: " + resultStr(ra), Case: trans})
+			return
+		}
+		chB := s.tc.doAsync(21, nil, time.Second)
+		qb := s.lk.nextRequest(2 * time.Second)
+		if qb == nil {
+			return
+		}
+		s.lk.sendFrame(respFrame(1, 21, qb.Rid, 0, []byte(fmt.Sprintf("next-%d", round))))
+		rb, okB := awaitDo(chB, 2*time.Second)
+		if !okB || rb.pkt == nil || rb.pkt.Metadata.RequestId != qb.Rid || string(rb.pkt.Body) != fmt.Sprintf("next-%d", round) {
+			r.violate(Violation{What: "the call after a doubly answered call did not get its own response: " + resultStr(rb),
+				Case: fmt.Sprintf("%s round %d: call A (id %d) answered twice back to back, then call B (id %d) answered once", trans, round, qa.Rid, qb.Rid)})
+			return
+		}
+		r.st.Evaluations++
+	}
+	r.count("c05.dup-burst." + trans)
 }
 
 // ---- C07 ----
@@ -527,6 +592,53 @@ func runC07(r *Run) {
 			r.c07Scenario(trans, k, "ordinary")
 		}
 		r.c07DefaultTimeout(trans)
+		r.c07QueuedThenDropped(trans)
 	}
 	r.c07AfterRecovery()
+}
+
+// c07QueuedThenDropped: the response was read from the live connection and queued behind a push whose handler is
+// still running when the peer drops the connection: it arrived in time and must be returned.
+func (r *Run) c07QueuedThenDropped(trans string) {
+	entered := make(chan struct{}, 1)
+	s, err := openSessionPrep(trans, 1, func(tc *testClient) {
+		first := true
+		tc.cli.Subscribe(50, func(p *protocol.Packet) {
+			if first {
+				first = false
+				entered <- struct{}{}
+				time.Sleep(400 * time.Millisecond)
+			}
+		})
+	})
+	if err != nil {
+		return
+	}
+	defer s.close()
+	ch := s.tc.doAsync(30, nil, 2*time.Second)
+	q := s.lk.nextRequest(2 * time.Second)
+	if q == nil {
+		return
+	}
+	s.lk.sendFrame(pushFrame(1, 50, []byte("slow")))
+	select {
+	case <-entered:
+	case <-time.After(2 * time.Second):
+		return
+	}
+	s.lk.sendFrame(pushFrame(1, 50, []byte("second")))
+	s.lk.sendFrame(respFrame(1, 30, q.Rid, 0, []byte("in-time")))
+	time.Sleep(100 * time.Millisecond) // read and queued by now; the dispatcher is still inside the handler
+	if wl, ok := s.lk.(wsLink); ok {
+		wl.pc.c.UnderlyingConn().Close() // abrupt: no close frame
+	} else {
+		s.lk.drop()
+	}
+	res, ok := awaitDo(ch, 3*time.Second)
+	cs := trans + ": push (handler busy 400 ms), push, response - all read - then the peer drops the connection"
+	if !ok || res.pkt == nil || string(res.pkt.Body) != "in-time" {
+		r.violate(Violation{What: "a response that was received and queued before the connection dropped was not returned: " + resultStr(res), Case: cs})
+	}
+	r.st.Evaluations++
+	r.count("c07.queued-then-dropped." + trans)
 }
